@@ -105,7 +105,12 @@ def _ref_cost_particle(case, y, particle):
     yhat = traj[:, lossgen.obs_cols(case)]
     if (yhat <= 1e-9).any() and case["loss"] == "Poisson":
         raise Inconclusive("prediction not positive")
-    return lossgen.ref_cost(case, y, yhat)
+    ref = lossgen.ref_cost(case, y, yhat)
+    # predictions decayed to ~1e-6 under a log-type loss amplify the integrators' absolute error beyond the comparison tolerance
+    dl = lossgen.ref_dloss(case, y, yhat)
+    if 1e-8 * (1 + float(np.abs(traj).max())) * float(np.abs(dl).sum()) > 1e-6 * (1 + abs(ref)):
+        raise Inconclusive("loss amplifies solver error")
+    return ref
 
 
 def oracle(case, rec):
